@@ -156,8 +156,43 @@ func (ch *Channel) NewStream(ctx context.Context, desc *grpc.StreamDesc, methodN
 	return ret, nil
 }
 
+// clientStreamWrapper carries the finalizer that cancels a stream the caller
+// abandoned. Every method keeps the wrapper reachable until the wrapped call
+// has returned: without that the wrapper is garbage as soon as a promoted
+// method has been dispatched, and a collection during the caller's last call
+// on the stream (e.g. the RecvMsg of CloseAndRecv) would cancel that very call.
 type clientStreamWrapper struct {
-	grpc.ClientStream
+	cs grpc.ClientStream
+}
+
+func (w *clientStreamWrapper) Header() (metadata.MD, error) {
+	defer runtime.KeepAlive(w)
+	return w.cs.Header()
+}
+
+func (w *clientStreamWrapper) Trailer() metadata.MD {
+	defer runtime.KeepAlive(w)
+	return w.cs.Trailer()
+}
+
+func (w *clientStreamWrapper) CloseSend() error {
+	defer runtime.KeepAlive(w)
+	return w.cs.CloseSend()
+}
+
+func (w *clientStreamWrapper) Context() context.Context {
+	defer runtime.KeepAlive(w)
+	return w.cs.Context()
+}
+
+func (w *clientStreamWrapper) SendMsg(m interface{}) error {
+	defer runtime.KeepAlive(w)
+	return w.cs.SendMsg(m)
+}
+
+func (w *clientStreamWrapper) RecvMsg(m interface{}) error {
+	defer runtime.KeepAlive(w)
+	return w.cs.RecvMsg(m)
 }
 
 func getPeer(baseUrl *url.URL, tls *tls.ConnectionState) *peer.Peer {
